@@ -287,7 +287,109 @@ func bindings() []*binding {
 	}
 	bs = append(bs, dmqBindings()...)
 	bs = append(bs, leiosBindings()...)
+	for _, b := range bs {
+		if b.real == nil {
+			b.real = exportedReal[b.id]
+		}
+	}
 	return bs
+}
+
+func isClient(r protocol.ProtocolRole) bool { return r == protocol.ProtocolRoleClient }
+
+// exportedReal: the real Client/Server objects of the packages that also export
+// their state map, with default configurations (no callbacks). Used to check that
+// the objects run the exported map from the expected initial state; handlers that
+// fail, block or reply on their own only cut a trace.
+var exportedReal = map[string]realFactory{
+	"handshake/ntn": func(r protocol.ProtocolRole, o protocol.ProtocolOptions) *protocol.Protocol {
+		cfg := handshake.NewConfig(handshake.WithProtocolVersionMap(ntnMap()))
+		if isClient(r) {
+			return handshake.NewClient(o, &cfg).Protocol
+		}
+		return handshake.NewServer(o, &cfg).Protocol
+	},
+	"handshake/ntc": func(r protocol.ProtocolRole, o protocol.ProtocolOptions) *protocol.Protocol {
+		cfg := handshake.NewConfig(handshake.WithProtocolVersionMap(
+			protocol.GetProtocolVersionMap(protocol.ProtocolModeNodeToClient, 764824073, false, false, false)))
+		if isClient(r) {
+			return handshake.NewClient(o, &cfg).Protocol
+		}
+		return handshake.NewServer(o, &cfg).Protocol
+	},
+	"chain-sync/ntn": chainSyncReal,
+	"chain-sync/ntc": chainSyncReal,
+	"block-fetch": func(r protocol.ProtocolRole, o protocol.ProtocolOptions) *protocol.Protocol {
+		cfg := must(blockfetch.NewConfig())
+		if isClient(r) {
+			return blockfetch.NewClient(o, &cfg).Protocol
+		}
+		return blockfetch.NewServer(o, &cfg).Protocol
+	},
+	"tx-submission": func(r protocol.ProtocolRole, o protocol.ProtocolOptions) *protocol.Protocol {
+		cfg := txsubmission.NewConfig()
+		if isClient(r) {
+			return txsubmission.NewClient(o, &cfg).Protocol
+		}
+		return txsubmission.NewServer(o, &cfg).Protocol
+	},
+	"keep-alive": func(r protocol.ProtocolRole, o protocol.ProtocolOptions) *protocol.Protocol {
+		cfg := keepalive.NewConfig()
+		if isClient(r) {
+			return keepalive.NewClient(o, &cfg).Protocol
+		}
+		return keepalive.NewServer(o, &cfg).Protocol
+	},
+	"peer-sharing": func(r protocol.ProtocolRole, o protocol.ProtocolOptions) *protocol.Protocol {
+		cfg := peersharing.NewConfig()
+		if isClient(r) {
+			return peersharing.NewClient(o, &cfg).Protocol
+		}
+		return peersharing.NewServer(o, &cfg).Protocol
+	},
+	"local-tx-submission": func(r protocol.ProtocolRole, o protocol.ProtocolOptions) *protocol.Protocol {
+		cfg := localtxsubmission.NewConfig()
+		if isClient(r) {
+			return localtxsubmission.NewClient(o, &cfg).Protocol
+		}
+		return localtxsubmission.NewServer(o, &cfg).Protocol
+	},
+	"local-tx-monitor": func(r protocol.ProtocolRole, o protocol.ProtocolOptions) *protocol.Protocol {
+		cfg := localtxmonitor.NewConfig()
+		if isClient(r) {
+			return localtxmonitor.NewClient(o, &cfg).Protocol
+		}
+		return localtxmonitor.NewServer(o, &cfg).Protocol
+	},
+	"local-state-query": func(r protocol.ProtocolRole, o protocol.ProtocolOptions) *protocol.Protocol {
+		cfg := localstatequery.NewConfig()
+		if isClient(r) {
+			return localstatequery.NewClient(o, &cfg).Protocol
+		}
+		return localstatequery.NewServer(o, &cfg).Protocol
+	},
+	"leios-fetch": func(r protocol.ProtocolRole, o protocol.ProtocolOptions) *protocol.Protocol {
+		cfg := leiosfetch.NewConfig()
+		if isClient(r) {
+			return leiosfetch.NewClient(o, &cfg).Protocol
+		}
+		return leiosfetch.NewServer(o, &cfg).Protocol
+	},
+	"leios-notify": func(r protocol.ProtocolRole, o protocol.ProtocolOptions) *protocol.Protocol {
+		cfg := leiosnotify.NewConfig()
+		if isClient(r) {
+			return leiosnotify.NewClient(o, &cfg).Protocol
+		}
+		return leiosnotify.NewServer(o, &cfg).Protocol
+	},
+}
+
+func chainSyncReal(r protocol.ProtocolRole, o protocol.ProtocolOptions) *protocol.Protocol {
+	cfg := chainsync.NewConfig()
+	if isClient(r) {
+		return chainsync.NewClient(o, &cfg).Protocol
+	}
+	return chainsync.NewServer(o, &cfg).Protocol
 }
 
 // ---- DMQ (CIP-0137): the packages do not export their state maps; the automaton
